@@ -393,7 +393,15 @@ func ownerCanon(owner string, canonName map[string]string) string {
 }
 
 // nm is the canonical name of a declared object (function, global, field, type name, ...).
-func nm(x interface{ Name() string }) string {
+func nm(x interface{ Name() string }) (name string) {
+	if x == nil {
+		return "<nil>"
+	}
+	defer func() {
+		if recover() != nil {
+			name = "<nil>"
+		}
+	}()
 	var o types.Object
 	switch v := x.(type) {
 	case *ssa.Function:
@@ -412,4 +420,32 @@ func nm(x interface{ Name() string }) string {
 		}
 	}
 	return x.Name()
+}
+
+// resolveRoles names functions by the role they play when the canonical function has disappeared without a
+// counterpart of the same signature (its body was folded into another function, or its signature changed).
+// A role is defined structurally from anchors that cannot move; so far:
+//
+//	Entry.findWriter - the function whose result the sink (printOut) hands the record to (receiver of Write).
+func resolveRoles(p *Prog) {
+	key := "method|slog|Entry|findWriter"
+	if p.Method(p.Slog, "Entry", "findWriter") == nil {
+		if sink := p.Method(p.Slog, "Entry", "printOut"); sink != nil {
+			for _, cs := range callsIn(sink) {
+				if invokeName(cs) != "Write" {
+					continue
+				}
+				for _, sv := range sources(cs.Common().Value) {
+					if call, ok := sv.(*ssa.Call); ok {
+						if cal := calleeOf(call); cal != nil && cal.Pkg == p.Slog && origin(cal).Object() != nil {
+							o := origin(cal).Object()
+							aliasOf[o] = "findWriter"
+							p.canon[key] = o
+							aliasNotes[fmt.Sprintf("role Entry.findWriter (destination selector of the sink) is played by %s", cal.Name())] = true
+						}
+					}
+				}
+			}
+		}
+	}
 }
